@@ -191,6 +191,12 @@ def check(case, ctx):
     src = re.sub(r'(?m)^(\[(?:ref1|Ref Two|r-3)\]: \S+(?: "[^"\n]*")?)$', lambda m: m.group(1) + ATTRS[(pick + len(m.group(1))) % len(ATTRS)], src)
     if pick:
         src += '\n\n![alt text](pic.png "t"%s) and [link text](http://e.x/ "t"%s)\n' % (ATTRS[pick % len(ATTRS)], ATTRS[(pick + 3) % len(ATTRS)])
+    if case.get('attrs', 0) % 2 == 1 and 'sweep' not in case:
+        # notes whose NAME carries reserved characters, each used twice (the second use of a note takes a different branch in every writer)
+        # (`<` is never followed by a letter: that would be user-written raw HTML wherever the note syntax is switched off)
+        src += ('\n\nUses [?R&D <1> "unit"] twice [?R&D <1> "unit"], [>AT&T] twice [>AT&T], [>A<2] twice [>A<2], and a citation[#K&R<78>] twice[#K&R<78>].\n\n'
+                '[?R&D <1> "unit"]: glossary text & more\n\n[>AT&T]: expansion <3> it\n\n[>A<2]: second expansion\n\n[#K&R<78>]: Kernighan & Ritchie <1978>\n')
+        ctx.cls('reused_notes_with_reserved_characters_in_their_names')
     ext, lang = case['ext'], case['lang']
     ctx.cls('ext_%#x' % ext)
     slots = 0
